@@ -219,15 +219,15 @@ func c18NodePos(c *core.Ctx, r *core.Reporter) {
 		r.Unknown("gqlerrors.newError", token.NoPos, "not found")
 		return
 	}
-	reads := core.FieldsRead(p.TypesInfo, []ast.Node{fd})["ast.Location"]
+	fn := c.Func("gqlerrors", "newError")
+	reads := core.FieldsRead(p.TypesInfo, c.RegionDecls(fn))["ast.Location"] // helpers extracted from newError included
 	r.Check(reads["Start"] && !reads["End"], "gqlerrors.newError/position-from-Loc.Start", fd.Pos(),
 		"error positions are the nodes' Loc.Start", "gqlerrors.newError does not take node positions from Loc.Start (or reads Loc.End): validation and field errors point at the wrong place")
 	// positions are converted with location.GetLocation on the error's own source
-	fn := c.Func("gqlerrors", "newError")
 	gl := c.Func("language/location", "GetLocation")
 	ok := false
 	if fn != nil && gl != nil {
-		for _, ci := range core.CallsTo(fn, gl, false) {
+		for _, ci := range c.RegionCallsTo(fn, gl) {
 			if core.InAnyLoop(ci.Block()) {
 				ok = true
 			}
